@@ -127,25 +127,25 @@ CLAIMED.update({
 # rules added after the independently seeded changes (rounds 1 and 2) were run against the checks:
 # one sentence per property, appended to its level text
 ADDENDA = {
-    "C01": "Also: the style cache is compared as a whole (component reads only for components the forget-marker sets); drawCell returns the GetContent width on every path; a painted cell is marked clean on every way out; the believed column width is go-runewidth's. Further: LockRegion covers exactly its rectangle; the underline bit and underline style stay in step in every Style method; the palette model (fitting against the xterm-256 RGB table presupposes colour counts 0/8/16/256/direct: three 88-colour entries violate it and are a recorded known finding). Application text spliced into a capability (title, URL) never passes through the padding stripper. The style cache has two writers only (forget-marker; drawCell's store of the style just emitted); HideCursor moves the requested position off-screen. The colour reset precedes every colour selection in sendFgBg. Round 6: ShowCursor stores the requested position as given; every operand handed to the parameter interpreter is an int, string or bool. Round 7: a new combining list is a fresh slice (the last-drawn record shares the old one); the clear flag is raised only together with Invalidate.",
-    "C02": "Also: what a parser consumes is exactly what it matched (fixed read counts against an abstract interpretation of the recogniser's (state, index) pairs; countdown, prefix, decoder and delimiter idioms); a queued input chunk owns its backing array; a 'partial' answer over several candidates only accumulates. Further: a decoder loop that answers 'complete' has consumed (progress); per terminal no key sequence or fixed report is a proper prefix of another key unless its parser is held back while the key matcher is partial; the escape timer is re-armed only after Stop with the tick drained. A recogniser dispatching on the current byte rejects unknown bytes. Round 6: which parsers the collect loop tries depends on the terminal's description and the scan only (the focus parser is tried on every terminal). Round 7: the rune parser offers the decoder growing prefixes, so what it consumes is the character it reports.",
-    "C03": "Also: the pending-Alt flag is screen state set by the collect loop and tested-and-cleared by the rune and function-key parsers; queued input chunks own their backing array. Further: wherever the pending-Alt flag is cleared it is applied; focus reports are checked against every key table; the rune parser's single-byte shortcut covers exactly 0x20-0x7e. The key matcher (parseFunctionKey) consumes exactly the matched sequence and its partial answer only accumulates. The escape timer is re-armed for any leftover, whatever its first byte. Round 6: the key matcher passes over a bare ESC entry of the table. Round 7: AddTerminfo files every entry under its name and aliases as written.",
-    "C04": "Also: remembered modes are stored only by the togglers (nothing reachable from Suspend/Resume/Fini stores them); on/off string fallbacks are assigned under the same conditions; the title is pushed before it is set. Further: cursor shape/colour resets are unconditional (a guard on the application's current request is rejected). Modes toggled on a screen that is not running are remembered, not written; engage's enter/push emissions carry no guard beyond the environment switch and string presence. Mode-off emissions and the remembered values do not depend on the bookkeeping or on the screen running; hyperlinks are closed at hand-back. Round 6: the set and reset strings of a mode differ in every description (DEC private pairs end in h/l the right way round); engage and the togglers are followed through their helpers with argument binding. Round 7: draw is inert unless the screen is running, in draw itself or in every caller.",
+    "C01": "Also: the style cache is compared as a whole (component reads only for components the forget-marker sets); drawCell returns the GetContent width on every path; a painted cell is marked clean on every way out; the believed column width is go-runewidth's. Further: LockRegion covers exactly its rectangle; the underline bit and underline style stay in step in every Style method; the palette model (fitting against the xterm-256 RGB table presupposes colour counts 0/8/16/256/direct: three 88-colour entries violate it and are a recorded known finding). Application text spliced into a capability (title, URL) never passes through the padding stripper. The style cache has two writers only (forget-marker; drawCell's store of the style just emitted); HideCursor moves the requested position off-screen. The colour reset precedes every colour selection in sendFgBg. Round 6: ShowCursor stores the requested position as given; every operand handed to the parameter interpreter is an int, string or bool. Round 7: a new combining list is a fresh slice (the last-drawn record shares the old one); the clear flag is raised only together with Invalidate. Round 8: Fill resolves ColorNone per cell on a copy; every colour selection and attribute switch of a style change is preceded by AttrOff.",
+    "C02": "Also: what a parser consumes is exactly what it matched (fixed read counts against an abstract interpretation of the recogniser's (state, index) pairs; countdown, prefix, decoder and delimiter idioms); a queued input chunk owns its backing array; a 'partial' answer over several candidates only accumulates. Further: a decoder loop that answers 'complete' has consumed (progress); per terminal no key sequence or fixed report is a proper prefix of another key unless its parser is held back while the key matcher is partial; the escape timer is re-armed only after Stop with the tick drained. A recogniser dispatching on the current byte rejects unknown bytes. Round 6: which parsers the collect loop tries depends on the terminal's description and the scan only (the focus parser is tried on every terminal). Round 7: the rune parser offers the decoder growing prefixes, so what it consumes is the character it reports. Round 8: the pending-Alt flag is cleared only where applied (shared with C03).",
+    "C03": "Also: the pending-Alt flag is screen state set by the collect loop and tested-and-cleared by the rune and function-key parsers; queued input chunks own their backing array. Further: wherever the pending-Alt flag is cleared it is applied; focus reports are checked against every key table; the rune parser's single-byte shortcut covers exactly 0x20-0x7e. The key matcher (parseFunctionKey) consumes exactly the matched sequence and its partial answer only accumulates. The escape timer is re-armed for any leftover, whatever its first byte. Round 6: the key matcher passes over a bare ESC entry of the table. Round 7: AddTerminfo files every entry under its name and aliases as written. Round 8: the key matcher's event carries the matched entry's key; every entry declaring xterm modifiers has the Shift forms of its cursor keys in its folded table.",
+    "C04": "Also: remembered modes are stored only by the togglers (nothing reachable from Suspend/Resume/Fini stores them); on/off string fallbacks are assigned under the same conditions; the title is pushed before it is set. Further: cursor shape/colour resets are unconditional (a guard on the application's current request is rejected). Modes toggled on a screen that is not running are remembered, not written; engage's enter/push emissions carry no guard beyond the environment switch and string presence. Mode-off emissions and the remembered values do not depend on the bookkeeping or on the screen running; hyperlinks are closed at hand-back. Round 6: the set and reset strings of a mode differ in every description (DEC private pairs end in h/l the right way round); engage and the togglers are followed through their helpers with argument binding. Round 7: draw is inert unless the screen is running, in draw itself or in every caller. Round 8: the hand-back path selects no colour and switches no attribute on.",
     "C05": "Also: queued input chunks own their backing array; ChannelEvents forwards the event it holds before it can receive another; no event producer consults a queue's fill level; only the terminfo/console resize notification and PostEvent may drop (wasm callbacks included in the quick tier). Further: the escape timer cannot deliver a stale tick; Fini closes the quit channel unconditionally. Bytes a read returned are queued whatever error came with them. Input a parser removes as 'complete' becomes an event (excuses: undecodable input that is not the charset's own U+FFFD; non-base64 clipboard payload); StopQ hands out the channel only Fini closes. Appended events are freshly constructed (never a possibly-nil pointer). Round 6: PollEvent returns every event it takes off the queue. Round 7: every parser removes exactly the bytes it recognised (shared with C02).",
-    "C06": "Also: engage re-establishes what disengage dismantles (resize callback feeding the queue the main loop reads, fresh stop channel given to both loops, Tty.Start); the Tty implementations do not join their signal goroutine under their own mutex; t.tty/t.ti are stored non-nil by the constructor or Init only. Further: draw returns unless running and every painter's column loop advances by at least one; every close of a quit channel runs at most once and engage refuses a finished screen. A refused engage has stored nothing in the screen; finish sets fini before handing the terminal back. PollEvent tests the stop channel alone before the select that also receives events. No event queue is ever closed; the unix Ttys undo deadline and non-blocking mode in Start; the simulation's Fini closes quit before locking. Round 6: every cycle of inputLoop that contains the Tty read passes the stop test. Round 7: a Tty that opens its own handle and wakes its reader with a deadline never calls Fd() on it.",
-    "C07": "Also: a closer or else ends a skip only at nesting level zero and every skipping mode counts nested openers; %c writes exactly one byte; %i increments each of the first two parameters independently; no pop discards the popped stack. Further: the evaluation state is local to the call (no pooled or package storage besides the static variables). TGoto keeps no state across calls. Round 6: the logical operators %A/%O are decided on the two popped values; printf-style flags are collected without the ':' introducer as well. Round 7: reader and writer of TParm are identified by role; a formatted conversion gets the operand popped with the coercion of its type; %d writes the decimal form (a helper is decided by constant evaluation over -1000..70000).",
-    "C08": "Also: every width store is RuneWidth of the stored rune, a copy, or the constant 1 under a proven printable-ASCII range; cells are never copied wholesale (clean-mark and lock do not travel); the ColorNone test works on a per-cell fresh copy of the style. Further: every method replacing a main rune dirties the covered columns first; SetDirty copies only the snapshot; Fill stores every cell; a width wrapper may only blank more runes. Resize copies exactly the overlapping region. Round 6: Dirty treats a zero marker as dirty whatever the cell holds and compares the combining runes with their lengths.",
+    "C06": "Also: engage re-establishes what disengage dismantles (resize callback feeding the queue the main loop reads, fresh stop channel given to both loops, Tty.Start); the Tty implementations do not join their signal goroutine under their own mutex; t.tty/t.ti are stored non-nil by the constructor or Init only. Further: draw returns unless running and every painter's column loop advances by at least one; every close of a quit channel runs at most once and engage refuses a finished screen. A refused engage has stored nothing in the screen; finish sets fini before handing the terminal back. PollEvent tests the stop channel alone before the select that also receives events. No event queue is ever closed; the unix Ttys undo deadline and non-blocking mode in Start; the simulation's Fini closes quit before locking. Round 6: every cycle of inputLoop that contains the Tty read passes the stop test. Round 7: a Tty that opens its own handle and wakes its reader with a deadline never calls Fd() on it. Round 8: what Init creates is used on the shutdown path only behind a non-nil test or the running flag (D54); the reported size is stored only where the resize event is posted.",
+    "C07": "Also: a closer or else ends a skip only at nesting level zero and every skipping mode counts nested openers; %c writes exactly one byte; %i increments each of the first two parameters independently; no pop discards the popped stack. Further: the evaluation state is local to the call (no pooled or package storage besides the static variables). TGoto keeps no state across calls. Round 6: the logical operators %A/%O are decided on the two popped values; printf-style flags are collected without the ':' introducer as well. Round 7: reader and writer of TParm are identified by role; a formatted conversion gets the operand popped with the coercion of its type; %d writes the decimal form (a helper is decided by constant evaluation over -1000..70000). Round 8: every way of completing an operator pops the same number of operands.",
+    "C08": "Also: every width store is RuneWidth of the stored rune, a copy, or the constant 1 under a proven printable-ASCII range; cells are never copied wholesale (clean-mark and lock do not travel); the ColorNone test works on a per-cell fresh copy of the style. Further: every method replacing a main rune dirties the covered columns first; SetDirty copies only the snapshot; Fill stores every cell; a width wrapper may only blank more runes. Resize copies exactly the overlapping region. Round 6: Dirty treats a zero marker as dirty whatever the cell holds and compares the combining runes with their lengths. Round 8: neighbour dirtying of a wide rune does not depend on the base cell's dirty marker.",
     "C09": "Also: TPuts removes terminated padding with exactly its delimiters and recognises every padding byte the database uses; encoder output is appended only behind the SUB test for every encoder call. Further: synthesised colour strings are well-formed with non-negative parameters for every index; format characters (Unicode Cf) get width 0 before the width tables are consulted; ACS glyph strings carry no padding. Round 6: operands of the parameter interpreter are int/string/bool; the charset is chosen from LC_ALL, LC_CTYPE, LANG with an empty value counting as unset. Round 7: encoder and decoder fields are assigned from NewEncoder and NewDecoder respectively wherever they are assigned.",
-    "C10": "Also: memory handed from the input goroutine to the main loop is not written again by the sender. Further: what GetContent hands out is never written again. Concurrent Fini calls run the shutdown body once (sync.Once, single closer). The Tty implementations' resize callback is accessed under their own mutex.",
-    "C11": "Also: queued input chunks own their backing array; no unicode/utf8 function is applied to undecoded input; a prefix the decoder could only substitute U+FFFD for is not consumed before prefixes up to 4 bytes were tried; the charset registration table pairs names with the objects of the same name; the key matcher's partial answer accumulates. Further: a read that returns bytes together with an error has its bytes queued. The rune parser delivers every character it consumes, a genuine U+FFFD included; the collect loop honours every parser's partial answer on every path. The rune parser is asked before the mouse parsers. Round 6: a freshly read chunk is scanned with expire=false; paste and focus modes survive Suspend/Resume. Round 7: the U+FFFD comparison has the screen's own encoder output on one side; no parser call of the collect loop is behind a test of the pending-counter alone.",
-    "C12": "Also: the SGR parser's per-parameter accumulators are reset together; queued input chunks own their backing array. Further: the rune parser leaves an undecodable 8-bit CSI for the mouse parsers. Both mouse parsers consume exactly their report and always deliver its event. The button-held flag is stored by the mouse parsers only. Round 6: the button and modifier mapping of buildMouseEvent is decided by constant evaluation for all 256 codes; the mouse parsers are tried whatever the current mouse flags; the decimal accumulator saturates (D52). Known finding: an 8-bit CSI is consumed by the rune parser under single-byte charsets.",
+    "C10": "Also: memory handed from the input goroutine to the main loop is not written again by the sender. Further: what GetContent hands out is never written again. Concurrent Fini calls run the shutdown body once (sync.Once, single closer). The Tty implementations' resize callback is accessed under their own mutex. Round 8: event queues are never closed; clipboard event payloads are memory made for the event.",
+    "C11": "Also: queued input chunks own their backing array; no unicode/utf8 function is applied to undecoded input; a prefix the decoder could only substitute U+FFFD for is not consumed before prefixes up to 4 bytes were tried; the charset registration table pairs names with the objects of the same name; the key matcher's partial answer accumulates. Further: a read that returns bytes together with an error has its bytes queued. The rune parser delivers every character it consumes, a genuine U+FFFD included; the collect loop honours every parser's partial answer on every path. The rune parser is asked before the mouse parsers. Round 6: a freshly read chunk is scanned with expire=false; paste and focus modes survive Suspend/Resume. Round 7: the U+FFFD comparison has the screen's own encoder output on one side; no parser call of the collect loop is behind a test of the pending-counter alone. Round 8: one normalisation of charset names; a select sending a decoded event has shutdown alternatives only.",
+    "C12": "Also: the SGR parser's per-parameter accumulators are reset together; queued input chunks own their backing array. Further: the rune parser leaves an undecodable 8-bit CSI for the mouse parsers. Both mouse parsers consume exactly their report and always deliver its event. The button-held flag is stored by the mouse parsers only. Round 6: the button and modifier mapping of buildMouseEvent is decided by constant evaluation for all 256 codes; the mouse parsers are tried whatever the current mouse flags; the decimal accumulator saturates (D52). Known finding: an 8-bit CSI is consumed by the rune parser under single-byte charsets. Round 8: a button or modifier that depends on state outside the report is a violation.",
     "C13": "Also: the content-changed tests do not tell a nil combining list from an empty one; the cell lock is written only by LockCell/UnlockCell; a painted cell is marked clean on every way out of the terminfo painter. Further: the snapshot taken at clean-mark is exactly what Dirty compares; clean-mark is called only by painters after their emission; Dirty answers false for a locked cell first; LockRegion range. The cells that survive Resize carry their lock flag. The force-dirty marker is stored only by SetDirty/Invalidate/Resize/UnlockCell. Round 6: a zero marker means dirty also for a cell nothing was stored in; the cell buffer keeps its own copy of the combining runes. Round 7: force-dirty sites are attributed to entry points (only repaint-by-contract entries, or behind a value-changed test against the assigned field); no flag stands between draw and the cell loop unless everything that dirties raises it.",
-    "C14": "Also: SetFg/SetBg/SetFgBg of every entry denote palette entry n for all n below its colour count; Init forces direct colour off under TCELL_TRUECOLOR=disable. Further: variant suffixes are matched at the end of the name only. The base entry found by a fallback lookup is the one the synthesised entry is built from. TCELL_TRUECOLOR=disable has the last word in LookupTerminfo. Round 6: lookups leave the registry as it is; set/reset pairs of every description differ. Round 7: the 256-colour synthesis does not depend on the base entry's contents; a lookup result is never registered again.",
+    "C14": "Also: SetFg/SetBg/SetFgBg of every entry denote palette entry n for all n below its colour count; Init forces direct colour off under TCELL_TRUECOLOR=disable. Further: variant suffixes are matched at the end of the name only. The base entry found by a fallback lookup is the one the synthesised entry is built from. TCELL_TRUECOLOR=disable has the last word in LookupTerminfo. Round 6: lookups leave the registry as it is; set/reset pairs of every description differ. Round 7: the 256-colour synthesis does not depend on the base entry's contents; a lookup result is never registered again. Round 8: AddTerminfo registers an entry whatever it holds.",
     "C15": "Also: TPuts cuts the string exactly at its markers, keeps text between the markers that is not a padding specification (grammar alphabet digits . * /, a number required), sleeps only with a pad character; %c emits one byte; TGoto returns what TParm computes in that call (no remembered results). Further: only the capability is subject to padding; application text spliced into it is not searched for $<...>. The interpreter's binary operators agree with the colour programs' needs (shared with C07). Round 6: LookupTerminfo never registers what it fabricates; TColor is decided on values (lineage, fold alternatives, guards through helpers); the padding grammar by byte classes. Round 7: %d writes the decimal form of the popped number (strconv, or a helper decided by constant evaluation for -1000..70000).",
-    "C16": "Also: FindColor scans the whole palette (no early exit); Hex answers -1, the colour's own 24 bits, or the table entry - nothing computed. Further: hex colour strings are parsed unsigned; PaletteColor/GetColor provenance. Further: by bit provenance (a per-bit dataflow, nothing executed) the conversions NewHexColor/NewRGBColor/Hex/RGB/TrueColor/IsRGB/PaletteColor/FromImageColor are exact for all 2^24 values and the special colours answer -1/not valid/default; CSS and GetColor agree on the '#%06X' form. FindColor hands go-colorful the components divided by 255.0 and does no arithmetic of its own. Round 6: FindColor's update test is decided on the keep edges of the loop-carried values; the distance rule looks through helpers.",
+    "C16": "Also: FindColor scans the whole palette (no early exit); Hex answers -1, the colour's own 24 bits, or the table entry - nothing computed. Further: hex colour strings are parsed unsigned; PaletteColor/GetColor provenance. Further: by bit provenance (a per-bit dataflow, nothing executed) the conversions NewHexColor/NewRGBColor/Hex/RGB/TrueColor/IsRGB/PaletteColor/FromImageColor are exact for all 2^24 values and the special colours answer -1/not valid/default; CSS and GetColor agree on the '#%06X' form. FindColor hands go-colorful the components divided by 255.0 and does no arithmetic of its own. Round 6: FindColor's update test is decided on the keep edges of the loop-carried values; the distance rule looks through helpers. Round 8: GetColor looks every name up, whatever its length.",
     "C17": "Also: the encoder's destination buffer has a constant size >= 4 in encodeRune and CanDisplay; the charset registration table pairs every name with the encoding object of the same name (one reasoned exception: GB2312 is served by GBK). Further: acsc glyph bytes are copied as bytes, enter/exit strings lose their padding before they become cell content; locale compared as a whole. The fallback table is seeded where it is made and changed one entry at a time afterwards; cell content reaches the encoder one rune at a time. A screen's fallback table is its own map; combining runes are always handed to the encoder. Round 6: a helper that builds the cell text must leave the encoder to encodeRune. Round 7: the wide-cell padding decision reads the main rune's outcome only.",
-    "C18": "Also: the simulation decides 'not encodable' from the same observations as the terminfo screen and gives the encoder a constant destination >= 4; its resize event is never dropped; drawCell returns the GetContent width; a substituted prefix is not consumed; the prefix loop has no cap below 4. HideCursor moves the requested position off-screen. The simulation's fallback table is its own map; every draw re-evaluates the cursor. Round 6: ShowCursor stores the request as given; cell bytes never alias the encoder's destination; InjectKey delivers the key, rune and modifiers it was given. Round 7: the fallback table is consulted only for the main rune in both encoders (D53); nil tests of the cell bytes only with nil resets; SetSize copies into fresh storage; clear only with Invalidate.",
-    "C19": "Also: drawCell returns the GetContent width and marks painted cells clean; remembered mouse/paste modes are stored only by the togglers and re-applied by Resume; named keys are looked up under their plain DOM name whatever the modifiers. Further: Fini closes quit exactly once in every state; a page cleared outside a draw is invalidated before the next draw. HideCursor moves the requested position off-screen. Painting a wide rune empties the page nodes of the columns it covers. The post helper waits only in a select with the quit channel. Round 6: every key the page reports becomes an event (modifier keys alone excepted); the columns a wide rune covers are emptied only below the grid's width; handler installations are followed through helpers. Round 7: the clear flag is raised only together with Invalidate.",
+    "C18": "Also: the simulation decides 'not encodable' from the same observations as the terminfo screen and gives the encoder a constant destination >= 4; its resize event is never dropped; drawCell returns the GetContent width; a substituted prefix is not consumed; the prefix loop has no cap below 4. HideCursor moves the requested position off-screen. The simulation's fallback table is its own map; every draw re-evaluates the cursor. Round 6: ShowCursor stores the request as given; cell bytes never alias the encoder's destination; InjectKey delivers the key, rune and modifiers it was given. Round 7: the fallback table is consulted only for the main rune in both encoders (D53); nil tests of the cell bytes only with nil resets; SetSize copies into fresh storage; clear only with Invalidate. Round 8: sends on the simulation's queue wait for room themselves.",
+    "C19": "Also: drawCell returns the GetContent width and marks painted cells clean; remembered mouse/paste modes are stored only by the togglers and re-applied by Resume; named keys are looked up under their plain DOM name whatever the modifiers. Further: Fini closes quit exactly once in every state; a page cleared outside a draw is invalidated before the next draw. HideCursor moves the requested position off-screen. Painting a wide rune empties the page nodes of the columns it covers. The post helper waits only in a select with the quit channel. Round 6: every key the page reports becomes an event (modifier keys alone excepted); the columns a wide rune covers are emptied only below the grid's width; handler installations are followed through helpers. Round 7: the clear flag is raised only together with Invalidate. Round 8: a mouse callback is dropped only depending on the mouse flags and its arguments.",
     "C20": "Also: ViewPort.Resize clips the extent against the parent measured from the requested origin. Further: layout lays out unconditionally (return without it only for a nil view). Every child is placed on every layout pass. ViewPort.Resize re-validates the offset. Round 6: the clamp is decided for every ordering of offset, lim-size and 0 (order types); Resize clips against the parent every time. Round 7: a ViewPort invokes only SetContent and Size on its parent.",
 }
 
